@@ -178,3 +178,45 @@ def cb_distinct(K: Seq(Ballot), V: Seq(Real), n: Int, a: Int, b: Int) -> Bool:
     """distinct keys are written as ballots of different content"""
     return implies(0 <= n and n <= len(K) and n <= len(V) and kdist(K, n) and key_ok(K, n) and all_wf(K, n) and 0 <= a and a < b and b < n,
                    not cmatch(cb_prefix(K, V, n)[a], cb_prefix(K, V, n)[b], False))
+
+
+# ---------------------------------------------------------------- any additive per-ranking functional survives condensing
+from specs.scoring import pts, wpts  # noqa: E402  (pts is opaque here: the argument holds for every function of the ranking)
+
+
+@spec
+def accp(K: Seq(Ballot), V: Seq(Real), n: Int, sv: Seq(Real), x: Str) -> Real:
+    return 0 if n <= 0 else accp(K, V, n - 1, sv, x) + (V[n - 1] * pts(K[n - 1].ranking, len(K[n - 1].ranking), sv, x)
+                                                        if K[n - 1].ranking is not None else 0)
+
+
+@lemma(induct="n")
+def accp_app(K: Seq(Ballot), V: Seq(Real), b: Ballot, v: Real, n: Int, sv: Seq(Real), x: Str) -> Bool:
+    return implies(0 <= n and n <= len(K) and n <= len(V), accp(K + (b,), V + (v,), n, sv, x) == accp(K, V, n, sv, x))
+
+
+@lemma(induct="n", hint=lambda K, V, f, y, n, sv, x: supd_nth(V, f, y, n - 1))
+def accp_upd(K: Seq(Ballot), V: Seq(Real), f: Int, y: Real, n: Int, sv: Seq(Real), x: Str) -> Bool:
+    return implies(0 <= f and f < len(V) and 0 <= n and n <= len(V) and n <= len(K),
+                   accp(K, supd(V, f, y), n, sv, x)
+                   == accp(K, V, n, sv, x) + ((y - V[f]) * pts(K[f].ranking, len(K[f].ranking), sv, x) if (f < n and K[f].ranking is not None) else 0))
+
+
+@lemma(induct="n")
+def wpts_left(a: Seq(Ballot), b: Seq(Ballot), n: Int, sv: Seq(Real), x: Str) -> Bool:
+    return implies(0 <= n and n <= len(a), wpts(a + b, n, sv, x) == wpts(a, n, sv, x))
+
+
+@lemma(induct="n", hint=lambda K, V, n, sv, x: cb_prefix_len(K, V, n - 1)
+       and wpts_left(cb_prefix(K, V, n - 1), (cb_ballot(K[n - 1], V[n - 1]),), n - 1, sv, x))
+def wpts_cb_prefix(K: Seq(Ballot), V: Seq(Real), n: Int, sv: Seq(Real), x: Str) -> Bool:
+    return implies(0 <= n and n <= len(K) and n <= len(V), wpts(cb_prefix(K, V, n), n, sv, x) == accp(K, V, n, sv, x))
+
+
+# ---------------------------------------------------------------- a property of every ranking survives condensing (rk_ok is opaque here)
+from specs.scoring import rk_ok, all_rk_ok, all_rk_ok_app, all_rk_ok_nth  # noqa: E402
+
+
+@lemma(induct="n", hint=lambda K, V, n, C: cb_prefix_len(K, V, n - 1) and all_rk_ok_app(cb_prefix(K, V, n - 1), cb_ballot(K[n - 1], V[n - 1]), n - 1, C))
+def cb_prefix_ok(K: Seq(Ballot), V: Seq(Real), n: Int, C: CSet) -> Bool:
+    return implies(0 <= n and n <= len(K) and n <= len(V) and all_rk_ok(K, n, C), all_rk_ok(cb_prefix(K, V, n), n, C))
